@@ -131,6 +131,9 @@ Fixpoint visit_r (fuel : nat) (cur zero end_ : list nat) : list (list nat) :=
 
 (* cython.py:525 *)
 Definition nqp (degrees : list nat) : nat := fold_right Nat.max 0 degrees + 1.
+(* cython.py:512-525: `max([kv.p for kv in kvs0 + kvs1]) + 1` -- the knot vectors of ALL used spaces
+   (a one-space form has kvs1 = kvs0, cython.py:526-527) *)
+Definition nqp_spaces (ps0 ps1 : list nat) : nat := nqp (ps0 ++ ps1).
 
 (* bspline.py:117 np.unique(kv, return_inverse=True)[1] for a sorted knot vector (knots as
    integers = numerators over a common denominator): index of kv[i] among the distinct knots *)
